@@ -13,7 +13,9 @@
                                                 regenerated code (Montgomery-form lazy Lagrange words of
                                                 `lagrangeCoeff_gen`, `MRedLazy` loop, `MRed`, `CRed` adds)
     `share/aggregate/additive/run_entry_words`  every word the model outputs = that word computation
-  Clause "fewer than t active parties is refused with an error": `too_few_err`, `err_only_if`.
+  Clause "fewer than t active parties is refused with an error": `too_few_err`, `err_only_if`;
+    `newCombiner_threshold`, `too_few_err_any_others`, `enough_not_refused_any_others` (the threshold is
+    the constructor argument whatever `others` contains — own point included, excluded, duplicated).
   Clause "order of listing the parties": `order_indep`, `order_indep_first_t`, `order_indep_ok`.
   Clause "order of listing the setup shares": `setup_aggregation_order_indep`.
   Collision contract (fix 98b63bb): `collision_rejected`, `collision_never_ok`,
@@ -378,6 +380,33 @@ theorem err_only_if (cmb : Combiner) (actives : List ℕ) (own : ℕ) (share : Q
     · exact absurd h (by simp)
     · exact absurd h (by simp)
 
+/-- **the threshold of a Combiner is the constructor argument**, whatever `others` is (it "may
+contain the instantiator's own point", so `len(others)` says nothing about the number of parties;
+seeded regression C15-r4m2 clamped the threshold to `len(others)`). -/
+theorem newCombiner_threshold (r : RingQP) (own : ℕ) (others : List ℕ) (t : Int) :
+    (newCombiner r own others t).threshold = t ∧ (newCombiner r own others t).ring = r := ⟨rfl, rfl⟩
+
+/-- **too_few_err for every way of building the combiner**: with any `others` (own point included,
+excluded, duplicated, even empty), any own-point argument and any share, a request listing fewer
+than the constructor's `t` active points is refused with the error — in particular `t − 1` points
+when `t = N` and `others` holds the other `N − 1` points only. -/
+theorem too_few_err_any_others (r : RingQP) (own ownPoint : ℕ) (others actives : List ℕ) (t : Int) (share : QP)
+    (h : (actives.length : Int) < t) :
+    genAdditiveShare (newCombiner r own others t) actives ownPoint share = .err :=
+  too_few_err _ _ _ _ h
+
+/-- …and a request listing at least `t` points is never refused for being too short: the only
+other error is a collision (`err_only_if`). -/
+theorem enough_not_refused_any_others (r : RingQP) (own ownPoint : ℕ) (others actives : List ℕ) (t : Int)
+    (share : QP) (h : t ≤ (actives.length : Int))
+    (he : genAdditiveShare (newCombiner r own others t) actives ownPoint share = .err) :
+    ∃ a ∈ actives.take t.toNat, a ≠ ownPoint ∧ pointsCollide r.ms ownPoint a = true := by
+  rcases err_only_if _ _ _ _ he with h1 | h2
+  · have : (newCombiner r own others t).threshold = t := rfl
+    rw [this] at h1
+    omega
+  · exact h2
+
 /-- **collision_rejected** (fix 98b63bb): on a combiner made by `NewCombiner` that knows the first
 `t` active points, an active point different from `own` but congruent to it modulo some modulus of
 the ring makes `GenAdditiveShare` return the error. -/
@@ -609,6 +638,15 @@ example : thresholdRun exRing 2 (zeroQP exRing 2) exDealers
 example : genAdditiveShare (newCombiner exRing 4 [4, 9, 11] 3) [9, 4] 4 ⟨2, [[1, 2], [3, 4], [5, 6]]⟩ = .err :=
   too_few_err _ _ _ _ (by decide)
 
+/-- `too_few_err_any_others`: t = N = 3, `others` = the two other points only, t − 1 = 2 listed. -/
+example : genAdditiveShare (newCombiner exRing 4 [9, 11] 3) [9, 11] 4 ⟨2, [[1, 2], [3, 4], [5, 6]]⟩ = .err :=
+  too_few_err_any_others _ _ _ _ _ _ _ (by decide)
+
+/-- …while the full set of t = N = 3 parties is served by that combiner (`reconstruct` allows
+`others` without the own point: `hoth` only asks for the *other* active points). -/
+example : ∃ s, genAdditiveShare (newCombiner exRing 4 [9, 11] 3) [9, 4, 11] 4 ⟨2, [[1, 2], [3, 4], [5, 6]]⟩ = .ok s :=
+  (accepted_iff_distinct exRing 3 4 [9, 11] [9, 4, 11] _ (by decide) (by decide)).mpr (by decide)
+
 /-- `setup_aggregation_order_indep`: concrete instance. -/
 example : aggregateAll exRing (zeroQP exRing 2) [⟨2, [[5, 6], [7, 8], [9, 10]]⟩, ⟨2, [[96, 0], [192, 1], [256, 2]]⟩] =
     aggregateAll exRing (zeroQP exRing 2) [⟨2, [[96, 0], [192, 1], [256, 2]]⟩, ⟨2, [[5, 6], [7, 8], [9, 10]]⟩] :=
@@ -634,6 +672,9 @@ end Lattigo.Props.C15
 #print axioms Lattigo.Props.C15.order_indep
 #print axioms Lattigo.Props.C15.too_few_err
 #print axioms Lattigo.Props.C15.err_only_if
+#print axioms Lattigo.Props.C15.newCombiner_threshold
+#print axioms Lattigo.Props.C15.too_few_err_any_others
+#print axioms Lattigo.Props.C15.enough_not_refused_any_others
 #print axioms Lattigo.Props.C15.reconstruct_or_reject
 #print axioms Lattigo.Props.C15.order_indep_ok
 #print axioms Lattigo.Props.C15.collision_rejected
